@@ -9,7 +9,7 @@ from . import c04
 ID = "C06"
 RULE = (
     "Graph cases of every family with a drawn fixed-subset mode: wellposed (one anchor) / extra-fixed (several) / all-fixed / "
-    "isolated-fixed (fixed vertices with no incident edge appended) / refix-history (fixed flags changed between optimize() calls on the same Graph object) / isolated-free (an unconstrained free vertex => exactly singular system, next to fixed vertices) / only-landmarks-fixed / no-fixed (singular normal equations) / diverging "
+    "isolated-fixed (fixed vertices with no incident edge appended) / refix-history (fixed flags changed between optimize() calls on the same Graph object) / shared-pose-object (a fixed and a free vertex initialised from one pose object) / isolated-free (an unconstrained free vertex => exactly singular system, next to fixed vertices) / only-landmarks-fixed / no-fixed (singular normal equations) / diverging "
     "(perturbation up to 3, 3 rad); 1..20 iterations; fix_first_pose in {T,F}. Oracles: (1) every vertex fixed at solve time is unchanged and "
     "finite in every outcome, incl. singular solves; (2) fixed flags: fix_first_pose=True sets exactly vertices[0].fixed, False changes none; "
     "(3) reduced problem: closed-form WLS with fixed coordinates as constants for R^n graphs, the dense reference Gauss-Newton step on the "
@@ -23,7 +23,7 @@ TOLERANCES = {
 }
 ASSUMPTIONS = ["reference model trusted after self-test", "singular solves: scipy may return NaN or garbage for the free unknowns; only fixed vertices and flags are judged there"]
 
-MODES = ["wellposed", "extra-fixed", "extra-fixed", "refix-history", "refix-history", "all-fixed", "isolated-fixed", "isolated-fixed", "isolated-free", "only-landmarks-fixed", "no-fixed", "diverging"]
+MODES = ["wellposed", "extra-fixed", "extra-fixed", "refix-history", "refix-history", "shared-pose-object", "all-fixed", "isolated-fixed", "isolated-fixed", "isolated-free", "only-landmarks-fixed", "no-fixed", "diverging"]
 
 
 @S.composite
@@ -64,6 +64,16 @@ def strategy_(g):
             used.add(nid)
             pos = rnd.randint(1, len(verts))
             verts.insert(pos, {"id": nid, "p": p, "fixed": mode == "isolated-fixed", "truth": list(p["v"]), "role": "isolated"})
+    if mode == "shared-pose-object":
+        # a fixed vertex and a free vertex of the same type start from ONE pose object (e.g. both initialised from the
+        # same `origin` object): the update of the free vertex must not reach the fixed one
+        ffv = [i for i, v in enumerate(verts) if v["fixed"] or (case["fix_first"] and i == 0)]
+        pairs = [(i, f) for f in ffv for i, v in enumerate(verts) if i not in ffv and v["p"]["k"] == verts[f]["p"]["k"]]
+        case["alias"] = []
+        if pairs:
+            i, f = rnd.choice(pairs)
+            verts[i]["p"] = dict(verts[f]["p"])
+            case["alias"] = [[i, f]]
     if mode == "refix-history":
         # flags changed between optimize() calls on the same Graph object: [(vertex index, new flag), ...] per stage
         stages = []
@@ -145,7 +155,7 @@ def check(case, ctx):
     ctx.event("mode:" + mode)
     ff = case["fix_first"]
     fixed = GC.expected_fixed(case, ff)
-    fault = mode in ("no-fixed", "only-landmarks-fixed", "diverging", "isolated-free")
+    fault = mode in ("no-fixed", "only-landmarks-fixed", "diverging", "isolated-free") or (mode == "shared-pose-object" and case["base"] in ("se2", "se3"))
     if mode == "only-landmarks-fixed" and case["base"] in ("r2", "r3"):
         fault = False  # a fixed point anchors the translation gauge of a linear graph
     ctx.nontrivial(any(f for f in fixed[1:]) or fault)
@@ -157,6 +167,9 @@ def check(case, ctx):
 
     # ---- the run under test: k iterations
     g = GG.build(case)
+    for i, f in case.get("alias", []):
+        g._vertices[i].pose = g._vertices[f].pose
+        ctx.event("fixed-and-free-vertex-share-one-pose-object")
     flags_before = [bool(v.fixed) for v in g._vertices]
     before = RG.poses_snapshot(g)
     ret, _ = GC.optimize_quiet(g, tol=case["tol"], max_iter=iters, fix_first_pose=ff, verbose=False)
